@@ -32,6 +32,10 @@ OPEN = [
   "fingerprint": "C06/data-race/W:internal/corazawaf.computeRuleChainMinPhase",
   "what": "build tag coraza.rule.multiphase_evaluation only: data race on Rule.chainMinPhase - computeRuleChainMinPhase (rule_multiphase.go:241-254) lazily writes the field of the shared rule during evaluation while other transactions read it (rulegroup.go:184, rule_multiphase.go:261); needs two transactions that evaluate a chained rule for the first time at the same moment; not repaired: the upstream TODO calls for computing it at parse time, a parser refactoring that is not a small patch",
   "scenario": "any configuration with a chained rule, two concurrent transactions on a fresh WAF, thorough tier multiphase build"},
+ {"property": "C06", "status": "open",
+  "fingerprint": "C06/first-transaction-differs/multiphase-build",
+  "what": "build tag coraza.rule.multiphase_evaluation only, same root cause as the chainMinPhase race: the value is computed lazily during the first evaluation, and rulegroup.go:179-188 treats a chained rule differently while it is still unset, so the first transaction a WAF serves is evaluated differently from every later one even sequentially (skip:1 on an earlier rule is consumed by a different rule): SecRule &QUERY_STRING|RESPONSE_HEADERS_NAMES \"@lt 3\" \"id:102,phase:5,pass,skip:1\" / chained rule 104 in phase 3 / SecRule ARGS_GET:/^a/ \"@pm foo\" \"id:154,phase:1\" on GET /index.php?A=foo fires 154 in the first transaction only. A transaction's outcome on a shared WAF therefore differs from its outcome alone whenever one of the two is the WAF's first. The check reports it under this fingerprint only after establishing that the same script alone gives two outcomes (first / later) and that the concurrent outcome equals one of them; every other difference stays a violation. Not repaired for the same reason as the race (parse-time computation needs the parser refactoring the upstream TODO describes).",
+  "scenario": "multiphase build, a chained rule plus skip on a rule evaluated in an inferred phase; two sequential transactions on one WAF"},
 ]
 try:
     old = json.load(open('/verif/known_findings.json'))
